@@ -198,6 +198,18 @@ def run(m: Model, r: Report, tier: str) -> None:
     r.check(len(nsucc) == 1 and isinstance(g.nodes[nsucc[0]].ast, ast.Assign) and ast.unparse(g.nodes[nsucc[0]].ast.targets[0]) == TV and "datetime.now" in ast.unparse(g.nodes[nsucc[0]].ast.value),
             "R4", f"{req.qualname}#receive-time", "receive_time is not taken directly after the awaited exchange", loc=req.loc)
 
+    # every way a reply gets into the row comes with a receive time: also the reply carried by a mismatch / malformed-response exception
+    resp_binds = [n for n in g.nodes.values() if n.kind == "stmt" and isinstance(n.ast, ast.Assign) and any(ast.unparse(t_) == RV for t_ in n.ast.targets)
+                  and not (isinstance(n.ast.value, ast.Constant) and n.ast.value.value is None)]
+    recv_binds = {n.id for n in g.nodes.values() if n.kind == "stmt" and isinstance(n.ast, ast.Assign) and any(ast.unparse(t_) == TV for t_ in n.ast.targets) and "datetime.now" in ast.unparse(n.ast.value)}
+    if len(resp_binds) < 2:
+        raise AnalysisError(f"{req.qualname}: expected the reply to be bound on the success path and in the ResponseException handler")
+    for rb in resp_binds:
+        okt, _pt = g.must_pass(rb.id, recv_binds, ins, skip_edge=lambda n, b, k: k == "exc" and n.id == rb.id)
+        r.check(okt, "R4", f"{req.qualname}#receive-time-with-every-reply@{'exchange' if 'await' in ast.unparse(rb.ast) else 'exception'}",
+                f"`{ast.unparse(rb.ast)}` puts a reply into the row without a receive time: rows of mismatching / malformed replies hold the reply bytes but response_time NULL, "
+                "so 'send time not after receive time' cannot hold for these outcome classes", loc=f"{req.module.relpath}:{rb.ast.lineno}")
+
     # ---------------------------------------------------------------- R5
     con = sqlcheck.schema_db(m)
     hmod = m.module(HANDLER)
